@@ -8,7 +8,7 @@
 
 namespace sim {
 
-struct ClauseEv { char kind; int inst; int k; long val; const void* a1; const void* a2; };
+struct ClauseEv { char kind; int inst; int k; long val; const void* a1; const void* a2; long msnap; /* model's live value of the local when the clause ran */ };
 struct RawReport { int gen; bool fatal; std::string file; unsigned long line; std::string msg; };
 struct RawOk { int gen; std::string msg; };
 struct RawTrace { int tracer; std::string file; unsigned long line; std::string msg; };
